@@ -366,8 +366,84 @@ def rule_wz(repo: Repo, rep: Report) -> int:
     return n
 
 
+def feedback_trace_evaluated(repo: Repo):
+    """FeedbackChannelModel.forward evaluated with recording stand-ins for its six stages (own interpreter; every call is
+    logged with the tags of its arguments) for 1, 2 and 3 rounds, with positional and keyword extras forwarded, and with a
+    processor that returns a state / returns None: the logged call sequence must be, round by round, [processor(previous
+    feedback) only when a previous round exists], encoder(input[, state]), forward channel, decoder, feedback
+    generator(decoded, input), feedback channel - nothing before, between or after - and the returned record must hold the
+    per-round values.  Returns (status, detail) or (None, reason)."""
+    from ..constfold import PySeq, Unfoldable
+    from ..frag import FragRaise, FragReturn, run_fragment
+
+    fi = repo.func(FB, "FeedbackChannelModel.forward")
+    ci = fi.cls
+    funcs = {f"self.{nm}": m.node for nm, m in ci.methods.items() if nm not in ("forward", "__init__")} if ci is not None else {}
+    stages = ("encoder", "forward_channel", "decoder", "feedback_generator", "feedback_channel", "feedback_processor")
+    data_param = next((p_ for p_ in fi.params if p_ not in ("self", "args", "kwargs")), "input_data")
+    runs = 0
+    for k in (1, 2, 3):
+        for extras, kwextras in (([], {}), (["a1"], {"snr": "s9"})):
+            for proc_none in (False, True):
+                trace = []
+
+                def mk(tag, trace=trace, proc_none=proc_none):
+                    def f(*a, **kw):
+                        trace.append((tag, tuple(a), tuple(sorted(kw.items()))))
+                        n_ = sum(1 for t in trace if t[0] == tag)
+                        return None if (tag == "feedback_processor" and proc_none) else f"{tag}#{n_}"
+
+                    return f
+
+                ctors = {f"self.{s_}": mk(s_) for s_ in stages}
+                attrs = {"self.max_iterations": k}
+                attrs.update({f"self.{s_}": f"<{s_}>" for s_ in stages})
+                try:
+                    run_fragment(fi.body, {data_param: "x", "args": PySeq(list(extras)), "kwargs": dict(kwextras)}, attrs, ctors=ctors, funcs=funcs, materialise=True, max_steps=200000, attrs_live=True)
+                    return None, "no value returned"
+                except FragReturn as ret:
+                    got = ret.value
+                except FragRaise:
+                    return VIOLATION, f"{k} round(s): forward raises with every stage configured"
+                except (Unfoldable, TypeError, ValueError, KeyError, IndexError) as exc:
+                    return None, f"not evaluable ({exc})"
+                want, fb = [], None
+                kwt = tuple(sorted(kwextras.items()))
+                for i in range(k):
+                    state = None
+                    if i > 0:
+                        want.append(("feedback_processor", (fb, *extras), kwt))
+                        state = None if proc_none else f"feedback_processor#{i}"
+                    want.append(("encoder", ("x", *extras), tuple(sorted(dict(kwextras, **({"state": state} if state is not None else {})).items()))))
+                    want.append(("forward_channel", (f"encoder#{i + 1}", *extras), kwt))
+                    want.append(("decoder", (f"forward_channel#{i + 1}", *extras), kwt))
+                    want.append(("feedback_generator", (f"decoder#{i + 1}", "x", *extras), kwt))
+                    want.append(("feedback_channel", (f"feedback_generator#{i + 1}", *extras), kwt))
+                    fb = f"feedback_channel#{i + 1}"
+                if trace != want:
+                    j = next((t for t in range(min(len(trace), len(want))) if trace[t] != want[t]), min(len(trace), len(want)))
+                    got_c = f"{trace[j][0]}{trace[j][1]}" if j < len(trace) else "(nothing more)"
+                    want_c = f"{want[j][0]}{want[j][1]}" if j < len(want) else "(nothing more)"
+                    return VIOLATION, f"{k} round(s){', processor returning None' if proc_none else ''}: call {j + 1} of the run is {got_c} where the declared schedule has {want_c}; the whole run calls {[t[0] for t in trace]} (declared: per round encoder, forward channel, decoder, feedback generator, feedback channel, and the feedback processor only between two rounds - {k - 1} time(s) for {k} round(s))"
+                if not isinstance(got, dict) or got.get("final_output") != f"decoder#{k}" or list(got.get("feedback_history") or []) != [f"feedback_channel#{i + 1}" for i in range(k)]:
+                    return VIOLATION, f"{k} round(s): the returned record is {str(got)[:200]}; final_output must be the last round's decoder output and feedback_history the {k} feedback-channel outputs in order"
+                its = got.get("iterations")
+                if not (isinstance(its, list) and len(its) == k and all(isinstance(r_, dict) and r_.get("encoded") == f"encoder#{i + 1}" and r_.get("received") == f"forward_channel#{i + 1}" and r_.get("decoded") == f"decoder#{i + 1}" and r_.get("feedback") == f"feedback_channel#{i + 1}" for i, r_ in enumerate(its))):
+                    return VIOLATION, f"{k} round(s): the per-round records are {str(its)[:200]}: round i must hold that round's encoded / received / decoded / feedback values"
+                runs += 1
+    return OK, f"{runs} runs (1-3 rounds; with and without forwarded extras; processor returning a state / None): the logged stage calls and their arguments equal the declared schedule call by call, and the returned record holds each round's values"
+
+
 def rule_feedback(repo: Repo, rep: Report) -> int:
     fi = repo.func(FB, "FeedbackChannelModel.forward")
+    tst_, td_ = feedback_trace_evaluated(repo)
+    if tst_ is not None:
+        rep.add("PROVENANCE", fi, "forward evaluated with recording stand-ins for the six stages (1-3 rounds)", tst_, td_, node=fi.node)
+        # a data-dependent exit can agree with the schedule on the stand-in values: every loop of the function stays free of
+        # break / continue / return / raise
+        exits = [x_ for l_ in ast.walk(fi.node) if isinstance(l_, (ast.For, ast.While)) for b_ in l_.body for x_ in ast.walk(b_) if isinstance(x_, (ast.Break, ast.Return, ast.Continue, ast.Raise))]
+        rep.check(not exits, "ROUNDS", fi, "iteration loop has no break/continue/return", "no early exit: every round runs all five stages", f"round can be cut short by `{unparse(exits[0]) if exits else ''}`", node=exits[0] if exits else fi.node)
+        return 14  # the obligations of the structural reading below (rounds, exits, two round kinds x term and five call counts) are all decided by the logged runs
     res = stage_resolver({"self.encoder": "enc", "self.forward_channel": "fch", "self.decoder": "dec", "self.feedback_generator": "fbgen", "self.feedback_channel": "fbch", "self.feedback_processor": "proc"}, {})
     n = 0
     loops = [s for s in fi.body if isinstance(s, ast.For)]
